@@ -43,7 +43,8 @@ def field_mutants(rnd, z, limit=None):
             pass
     n = len(z.chunks)
     # count mismatch
-    for c in (0, n - 1, n + 1, 7, 2**31, 2**64 - 1):
+    # (also values that equal the true count after truncation to 32 / 31 / 16 / 8 bits)
+    for c in (0, n - 1, n + 1, 7, 2**31, 2**64 - 1, 2**32 + n, 3 * 2**40 + n, 2**31 + n, 2**16 + n, 256 + n, 2**63 + n):
         if c >= 0: var('count=%d' % c, lambda y, c=c: setattr(y, 'o_count', c))
     # index size
     isz = len(z.index_bytes())
